@@ -40,10 +40,12 @@ const (
 	OpAdvAll   = "adv"      // N times Next on every open iterator, one iterator after the other
 	OpNextN    = "nextn"    // N times Next on open iterator #I
 	OpCloseAll = "closeall" // Close every open iterator (first one first; last one first if Rev)
+	OpChurn    = "churn"    // (I mod 4)+1 rounds of [add range; remove range] over the N keys from Key, then add range once more
+	OpScan     = "scan"     // a fresh iterator is driven to the end (HasNext+Next) and compared with the live order, then closed
 )
 
 // MaxKeys bounds the key alphabet.
-const MaxKeys = 1024
+const MaxKeys = 8192
 
 // Op is one call. Key is an index into the key alphabet (taken modulo Case.Keys), I an index into
 // the list of currently open iterators (taken modulo its length; with no open iterator the op is
@@ -131,6 +133,9 @@ func (i Info) Classes() []string {
 	}
 	if i.PeakLive >= 64 {
 		c = append(c, "live_entries_ge_64")
+	}
+	if i.PeakLive >= 1025 {
+		c = append(c, "live_entries_ge_1025")
 	}
 	add(i.DrainParked, "drained_to_quarter_of_peak_with_parked_iterator")
 	add(i.BulkOps, "bulk_ops_used")
@@ -266,6 +271,14 @@ type runner struct {
 // not executed, so every list stays executable and cheap.
 const MaxSteps = 30000
 
+// maxSteps: key spaces beyond 1024 get room for a few fill/drain rounds over the whole space.
+func (r *runner) maxSteps() int {
+	if r.c.Keys > 1024 {
+		return MaxSteps + 4*r.c.Keys
+	}
+	return MaxSteps
+}
+
 // ---------------------------------------------------------------------------------------------
 // watchdog: a corrupted list can make a call of the map spin forever (and allocate while doing so).
 // No oracle can notice that from inside, so a background goroutine watches the case in flight and
@@ -322,6 +335,8 @@ func (r *runner) where() string {
 		switch t.K {
 		case OpAddRange, OpRemRange:
 			pre += fmt.Sprintf("%s(from %s, n=%d, rev=%v) single op %d: ", t.K, r.key(t.Key), t.N, t.Rev, r.sub)
+		case OpChurn:
+			pre += fmt.Sprintf("%s(from %s, n=%d, rev=%v, rounds=%d) single op %d: ", t.K, r.key(t.Key), t.N, t.Rev, mod(t.I, 4)+1, r.sub)
 		case OpNextN:
 			pre += fmt.Sprintf("%s(i=%d, n=%d) single op %d: ", t.K, t.I, t.N, r.sub)
 		default:
@@ -446,6 +461,28 @@ func (r *runner) execTop(op Op) *vstat.Violation {
 				return v
 			}
 		}
+	case OpChurn:
+		n := clip(op.N, 0, keys)
+		pass := func(kind string) bool {
+			for j := 0; j < n; j++ {
+				k := op.Key + j
+				if op.Rev {
+					k = op.Key + n - 1 - j
+				}
+				if !sub(Op{K: kind, Key: k, V: op.V}) {
+					return false
+				}
+			}
+			return true
+		}
+		for round := mod(op.I, 4) + 1; round > 0; round-- {
+			if !pass(OpAdd) || !pass(OpRem) {
+				return v
+			}
+		}
+		if !pass(OpAdd) {
+			return v
+		}
 	case OpIters:
 		for j, n := 0, clip(op.N, 0, r.c.MaxIt); j < n; j++ {
 			if !sub(Op{K: OpIter}) {
@@ -491,7 +528,8 @@ func (r *runner) execTop(op Op) *vstat.Violation {
 		r.info.BulkOps++
 		r.cur = Op{K: "end of " + op.K}
 	}
-	if bulk || !r.small() {
+	// the full sweep is O(Keys): after every op of the list up to 1024 keys, after bulk ops only beyond
+	if bulk || (!r.small() && keys <= 1024) {
 		return r.fullCheck()
 	}
 	return nil
@@ -499,7 +537,7 @@ func (r *runner) execTop(op Op) *vstat.Violation {
 
 // single executes one single op and the per-step checks.
 func (r *runner) single(op Op) *vstat.Violation {
-	if r.info.Steps >= MaxSteps {
+	if r.info.Steps >= r.maxSteps() {
 		r.info.StepCap = true
 		return nil
 	}
@@ -618,6 +656,9 @@ func (r *runner) exec(op Op) (done bool, v *vstat.Violation) {
 	case OpFirst:
 		r.noteUse()
 		return true, r.checkFirst()
+	case OpScan:
+		r.noteUse()
+		return true, r.scan("map:scan")
 	case OpIter:
 		if len(r.its) >= r.c.MaxIt {
 			return false, nil
@@ -820,7 +861,7 @@ func (r *runner) afterStep() *vstat.Violation {
 			return v
 		}
 	}
-	if r.structural && r.info.Steps%16 == 0 {
+	if r.structural && r.info.Steps-r.walkedAt >= max(16, r.md.live.n/4) {
 		return r.walk()
 	}
 	return nil
@@ -902,7 +943,17 @@ func (r *runner) finish() *vstat.Violation {
 	if v := r.fullCheck(); v != nil {
 		return v
 	}
-	// a fresh iterator returns exactly the live entries in insertion order
+	if v := r.scan("map:final-iteration"); v != nil {
+		return v
+	}
+	if v := r.checkFirst(); v != nil {
+		return v
+	}
+	return r.checkLen()
+}
+
+// scan: a fresh iterator returns exactly the live entries in insertion order.
+func (r *runner) scan(sig string) *vstat.Violation {
 	it := r.m.Iterator()
 	if it == nil {
 		return vstat.V("map:iterator-nil", "%s: Iterator() returned nil", r.where())
@@ -911,46 +962,45 @@ func (r *runner) finish() *vstat.Violation {
 	for s := r.md.nextLive(0); s >= 0; s = r.md.nextLive(s + 1) {
 		want := r.md.ents[s]
 		if !it.HasNext() {
-			return vstat.V("map:final-iteration", "%s: fresh iterator: HasNext()=false after %d entries, want %d: %s", r.where(), cnt, r.md.live.n, r.liveString())
+			return vstat.V(sig, "%s: fresh iterator: HasNext()=false after %d entries, want %d: %s", r.where(), cnt, r.md.live.n, r.liveString())
 		}
 		e, ok := it.Next()
 		if !ok || e.Key != want.key || e.Value != want.val {
-			return vstat.V("map:final-iteration", "%s: fresh iterator: element %d is (%s=%d,%v), want (%s=%d,true); live entries: %s", r.where(), cnt, e.Key, e.Value, ok, want.key, want.val, r.liveString())
+			return vstat.V(sig, "%s: fresh iterator: element %d is (%s=%d,%v), want (%s=%d,true); live entries: %s", r.where(), cnt, e.Key, e.Value, ok, want.key, want.val, r.liveString())
 		}
 		cnt++
 	}
 	if it.HasNext() {
-		return vstat.V("map:final-iteration", "%s: fresh iterator: HasNext()=true after all %d live entries", r.where(), cnt)
+		return vstat.V(sig, "%s: fresh iterator: HasNext()=true after all %d live entries", r.where(), cnt)
 	}
 	if e, ok := it.Next(); ok {
-		return vstat.V("map:final-iteration", "%s: fresh iterator: Next() returned (%s=%d,true) after all %d live entries", r.where(), e.Key, e.Value, cnt)
+		return vstat.V(sig, "%s: fresh iterator: Next() returned (%s=%d,true) after all %d live entries", r.where(), e.Key, e.Value, cnt)
 	}
 	if r.structural {
 		r.its = append(r.its, &iter{it: it, pos: len(r.md.ents)}) // counted as open by walk
-		if v := r.walk(); v != nil {
+		v := r.walk()
+		r.its = r.its[:len(r.its)-1]
+		if v != nil {
 			return v
 		}
-		r.its = r.its[:0]
 	}
 	it.Close()
 	if r.structural {
-		if v := r.walk(); v != nil {
-			return v
-		}
+		return r.walk()
 	}
-	if v := r.checkFirst(); v != nil {
-		return v
-	}
-	return r.checkLen()
+	return nil
 }
 
 func (r *runner) liveString() string {
-	s := "["
+	s, n := "[", 0
 	for i := r.md.nextLive(0); i >= 0; i = r.md.nextLive(i + 1) {
 		if len(s) > 1 {
 			s += " "
 		}
 		s += fmt.Sprintf("#%d:%s=%d", i, r.md.ents[i].key, r.md.ents[i].val)
+		if n++; n == 40 && r.md.live.n > 40 {
+			return s + fmt.Sprintf(" ... %d live in all]", r.md.live.n)
+		}
 	}
 	return s + "]"
 }
